@@ -506,6 +506,12 @@ def run_check(prop, tier, seed, workers, replay=None, budget=None, extra=None):
                 cf = [x for x in conf.get("failures", []) if sig(x) == s] if conf.get("status") == "fail" else []
                 small = spec
             if not cf:
+                try:  # keep everything we know about a failure that a fresh interpreter does not show
+                    os.makedirs(os.path.join(ROOT, "replays"), exist_ok=True)
+                    with open(os.path.join(ROOT, "replays", "unreproduced-%s-%s.json" % (prop, j.get("seed"))), "w") as fh:
+                        json.dump({"job": j, "failure": f, "spec": spec, "all_failures": r.get("failures")}, fh, indent=1, default=str)
+                except Exception:
+                    pass
                 harness_errors.append((j, {"error": "failure %s did not reproduce in a fresh interpreter: %s" % (s, f.get("detail"))}))
                 continue
             path = write_replay(prop, small, cf[0], conf.get("digest"), seed)
